@@ -40,11 +40,27 @@ def run_cases(chk, n_fam, n_cases, gen_handlers, oracle=None, label="tree"):
                 hs = gen_handlers(rng, fam, roots)
             else:
                 hs = gen_handlers(rng, fam)
+            # a bare declaration that nothing supplies ends the activation with ptera's name error: the model tree
+            # has a raise there (nothing is bound, no handler sees a value); an overriding handler could supply
+            # the variable and let the call go on — those combinations are left out
+            decl = False
+            for fi, script in roots:
+                d, r = fam.fires_decl(fi, script)
+                decl = decl or d
+                if r:
+                    break
+            if decl and any(h.get("intercept") for h in hs):
+                chk.dist("left-out:declaration+override")
+                continue
             try:
                 evs, err, hj = treecorr.run_impl(fam, hs, env, roots)
             except Exception as e:  # a selector the implementation refuses: not a case
                 chk.dist("refused:" + type(e).__name__)
                 continue
+            if decl:
+                chk.dist("declaration-not-supplied")
+                if err is not None and err.get("err") == "PteraNameError":
+                    err = {"err": "Boom"}
             req = treecorr.model_request(fam, hj, roots)
             m = drv.ask(req)
             nact = sum(fam.n_activations(s, fi) for fi, s in roots)
